@@ -1245,6 +1245,37 @@ impl IndexManager {
     }
 }
 
+/// Verification hooks for the save path (compiled only by the Kani model checker; add-only).
+#[cfg(kani)]
+impl IndexManager {
+    /// Runs the REAL private `save_index` for one loaded bucket onto `path`.
+    pub fn verif_save_index_real(&self, bucket: u8, path: &Path) -> Result<()> {
+        match self.indices.get(&bucket) {
+            Some(index) => Self::save_index(bucket, index, path),
+            None => Err(StorageError::Index(String::new())),
+        }
+    }
+
+    /// Runs the REAL private `write_index_to_file` with caller-supplied blocks.
+    pub fn verif_write_index_to_file(
+        path: &Path,
+        header_data: &[u8],
+        entry_data: &[u8],
+        update_data: Option<&[u8]>,
+    ) -> Result<()> {
+        let hb = GuardedBlockHeader {
+            block_size: header_data.len() as u32,
+            block_hash: 0,
+        };
+        let eb = GuardedBlockHeader {
+            block_size: entry_data.len() as u32,
+            block_hash: 0,
+        };
+        let sorted_end = 8 + header_data.len() + 8 + 8 + entry_data.len();
+        Self::write_index_to_file(path, &hb, header_data, &eb, entry_data, sorted_end, update_data)
+    }
+}
+
 /// Statistics about loaded indices
 #[derive(Debug, Clone)]
 pub struct IndexStats {
